@@ -4,16 +4,53 @@ from . import gen_dirs
 from .props import Prop, spec_field, klass
 
 
+def gen_dirs_iter(rng, tier):
+    """iterator histories (front, back, nth, len, clone) over the debug entry and runtime function iterators"""
+    from .props_misc import histories
+    hs = histories(rng, 100 if tier == "quick" else 2000)
+    cases = []
+    src = gen_dirs.gen_dirs(gen_dirs.rng_clone(rng) if hasattr(gen_dirs, "rng_clone") else rng, "quick")
+    for case in src if tier != "quick" else rng.sample(src, min(50, len(src))):
+        ks = sorted(set(l.split(" ")[1] for l in case if l.startswith("debug ")))
+        if not ks:
+            continue
+        out = [l for l in case if l.startswith("img ") or l.startswith("from_bytes ")]
+        for k in ks:
+            for so in (("wdebug",) if k.startswith("w") else ("debug", "exc")):
+                for h in rng.sample(hs, 4):
+                    out.append("iter %s %s %s" % (k.split("@")[0], so, h))
+        cases.append(out)
+    return cases
+
+
 class C15(Prop):
     named_errors = {"Null", "Invalid"}    # "absent directories (null error) and sizes that are not a record multiple (invalid)"
     pid = "C15"
     title = "Debug, TLS, load-config, exception, security directories are decoded as stored"
     thm_modules = ["PeliteModel.Thm.C15", "PeliteModel.Thm.ImageLayout", "PeliteModel.Thm.C15Layout"]
-    gens = [gen_dirs.gen_dirs_corpus, gen_dirs.gen_dirs_examples, gen_dirs.gen_dirs, gen_dirs.gen_dirs_cv_bounds, gen_dirs.gen_dirs_overlay, gen_dirs.gen_dirs_fuzz, gen_dirs.gen_pogo_hist]
+
+    @property
+    def gens(self):
+        return [gen_dirs.gen_dirs_corpus, gen_dirs.gen_dirs_examples, gen_dirs.gen_dirs, gen_dirs.gen_dirs_cv_bounds,
+                gen_dirs.gen_dirs_overlay, gen_dirs.gen_dirs_fuzz, gen_dirs.gen_pogo_hist, gen_dirs_iter]
+
+    def judge(self, op, impl, model, spec):
+        if op.startswith("iter "):
+            t = self.oracle(op, impl, model, spec)      # answered by the harness alone (iterator vs deque of its items)
+            return {"kind": "spec", "text": t} if t else None
+        return Prop.judge(self, op, impl, model, spec)
 
     def oracle(self, op, impl, model, spec):
         a = op.split(" ")
         fam = a[0]
+        if fam == "iter":
+            # "the debug directory reports Size/28 entries", "Size/12 function records": the entry iterators consumed
+            # from either end, by nth, len, clone must behave like the sequence of those entries
+            if klass(impl) in ("panic", "crash", "timeout"):
+                return "iterator history: %s: %s" % (klass(impl), impl[:200])
+            if klass(impl) == "ok" and ("deque_same=0" in impl or "fused=0" in impl or "twin_same=0" in impl or "imglen_same=0" in impl):
+                return "directory entry iterator disagrees with the sequence of its items / is not fused: %s" % impl[:300]
+            return None
         if klass(impl) in ("panic", "crash", "timeout"):
             # C01-C03 obligations of these decoders: the theorems say no image makes them panic, fault or hang
             return "%s: %s" % (klass(impl), impl[:200])
